@@ -797,3 +797,10 @@ def register(R):
     register_walk(R)
     register_astnode(R)
     register_lexer(R)
+
+
+def regex_facts():
+    """regex-language facts of this property (contracts/regex_facts.py): obligations C15/regex/<label>"""
+    from contracts import regex_facts as RF
+
+    return RF.facts("C15")
